@@ -243,11 +243,17 @@ struct TokenPool : public Jobserver::Client {
 // 130 is the interrupt code and excluded by the property.
 static inline int sym_exit_code() {
 #ifdef WIDE_EXIT_CODES
+#ifdef REAL_RUNNER
+  static const int kCodes[] = { 2, 127, 129, 143, 255 };      // (the process-layer job is several times as expensive per path: a shorter menu)
+  const int kN = 5;
+#else
   static const int kCodes[] = { 1, 2, 3, 126, 127, 128, 129, 131, 137, 139, 143, 255 };
+  const int kN = 12;
+#endif
   static bool first = true;      // the first command that fails draws from the whole menu, later ones from 1..3 (keeps the product small; the process-wide flag is per path)
   if (!first) return 1 + verif_choice("exit_code_minus_1", 3);
   first = false;
-  return kCodes[verif_concretize(verif_choice("exit_code_index", 12))];
+  return kCodes[verif_concretize(verif_choice("exit_code_index", kN))];
 #else
   return 1 + verif_choice("exit_code_minus_1", 3);
 #endif
